@@ -24,7 +24,9 @@ theorem groupBy_partition (hash : Nat → Nat) (eqv : Nat → Nat → Bool) (kr 
   G.groupBy_partition hash eqv kr ix hnd
 
 /-- T1: the functions this property's mirror model follows have today the source text the model was written against. -/
-theorem tie : Tie.sameAll ["grouper.maxLoadFactor", "grouper.growthFactor", "grouper.calculateInitialSizeExp", "grouper.insertEntry", "grouper.grow", "grouper.groupIndex", "grouper.GroupBy", "grouper.equals", "grouper.table.hash", "grouper.newTable", "icolumn.Hash", "fcolumn.Hash", "bcolumn.Hash", "scolumn.Hash", "ecolumn.Hash", "qframe.QFrame.GroupBy", "qframe.Aggregate", "qframe.Grouper.QFrames"] = true := by decide
+-- The `Hash` functions of the column packages and the built-in aggregations are not compared as text: their meaning is
+-- regenerated on every run and proved in `C04Hash` (Equal keys hash equal) and `C04Aggregations` (= the spec's functions).
+theorem tie : Tie.sameAll ["grouper.maxLoadFactor", "grouper.growthFactor", "grouper.calculateInitialSizeExp", "grouper.insertEntry", "grouper.grow", "grouper.groupIndex", "grouper.GroupBy", "grouper.equals", "grouper.table.hash", "grouper.newTable", "qframe.QFrame.GroupBy", "qframe.Aggregate", "qframe.Grouper.QFrames"] = true := by decide
 
 /-- The load factor and growth factor of the table in today's source: the probe terminates because the table is
 never full (`maxLoadFactor < 1`) and growth doubles the size. -/
